@@ -110,6 +110,22 @@ fn positions() -> &'static Vec<Pos> {
             Pos { name: "key-label-twice", build: |n, _m| { Item::Map(vec![(Item::Int(1), Item::Int(1)), (n.clone(), Item::Null), (n, Item::Null)]) }, recode: recode!(CoseKey), accepts: |i| m_key(i).is_ok(), unsigned: false, uninterpreted: false },
             Pos { name: "claim-key-twice", build: |n, _m| { Item::Map(vec![(n.clone(), Item::Int(0)), (n, Item::Int(0))]) }, recode: recode!(ClaimsSet), accepts: |i| m_claims(i).is_ok(), unsigned: false, uninterpreted: false },
             Pos { name: "countersig-label-twice", build: |n, _m| map1(Item::Int(7), Item::Array(vec![Item::Bytes(vec![]), Item::Map(vec![(n.clone(), Item::Null), (n, Item::Null)]), Item::Bytes(vec![1])])), recode: recode!(Header), accepts: |i| m_header(i, &mut MCtx::default()).is_ok(), unsigned: false, uninterpreted: false },
+            // the integer is the first fault a reader of the map meets; something else is wrong further on, or
+            // only shows once the map has been read completely (no kty): out of range it is still an
+            // out-of-range error, in range the map is rejected for the other reason
+            Pos { name: "key-kty-member-label", build: |n, _m| Item::Map(vec![(n, Item::Int(2)), (Item::Int(3), Item::Int(-7)), (Item::Int(-1), Item::Int(1))]), recode: recode!(CoseKey), accepts: |i| m_key(i).is_ok(), unsigned: false, uninterpreted: false },
+            Pos { name: "key-alg-no-kty", build: |n, _m| Item::Map(vec![(Item::Int(3), n), (Item::Int(-1), Item::Int(1))]), recode: recode!(CoseKey), accepts: |i| m_key(i).is_ok(), unsigned: false, uninterpreted: false },
+            Pos { name: "key-ops-entry-no-kty", build: |n, _m| Item::Map(vec![(Item::Int(4), Item::Array(vec![n])), (Item::Int(2), Item::Bytes(vec![7]))]), recode: recode!(CoseKey), accepts: |i| m_key(i).is_ok(), unsigned: false, uninterpreted: false },
+            Pos { name: "key-label-before-kty", build: |n, _m| Item::Map(vec![(n, Item::Null), (Item::Int(1), Item::Int(1))]), recode: recode!(CoseKey), accepts: |i| m_key(i).is_ok(), unsigned: false, uninterpreted: false },
+            Pos { name: "key-label-before-reserved-kty", build: |n, _m| Item::Map(vec![(n, Item::Null), (Item::Int(1), Item::Int(0))]), recode: recode!(CoseKey), accepts: |i| m_key(i).is_ok(), unsigned: false, uninterpreted: false },
+            Pos { name: "keyset-first-key-label-no-kty-then-bad-key", build: |n, _m| Item::Array(vec![map1(n, Item::Null), Item::Int(0)]), recode: recode!(coset::CoseKeySet), accepts: |i| m_keyset(i).is_ok(), unsigned: false, uninterpreted: false },
+            Pos { name: "header-label-before-wrong-kind-kid", build: |n, _m| Item::Map(vec![(n, Item::Null), (Item::Int(4), Item::Text("kid".into()))]), recode: recode!(Header), accepts: |i| m_header(i, &mut MCtx::default()).is_ok(), unsigned: false, uninterpreted: false },
+            Pos { name: "header-alg-before-iv-and-partial-iv", build: |n, _m| Item::Map(vec![(Item::Int(1), n), (Item::Int(5), Item::Bytes(vec![1])), (Item::Int(6), Item::Bytes(vec![2]))]), recode: recode!(Header), accepts: |i| m_header(i, &mut MCtx::default()).is_ok(), unsigned: false, uninterpreted: false },
+            Pos { name: "header-crit-entry-before-repeated-label", build: |n, _m| Item::Map(vec![(Item::Int(2), Item::Array(vec![n])), (Item::Int(9), Item::Int(1)), (Item::Int(9), Item::Int(2))]), recode: recode!(Header), accepts: |i| m_header(i, &mut MCtx::default()).is_ok(), unsigned: false, uninterpreted: false },
+            Pos { name: "header-label-before-non-label-key", build: |n, _m| Item::Map(vec![(n, Item::Null), (Item::Bytes(vec![1]), Item::Null)]), recode: recode!(Header), accepts: |i| m_header(i, &mut MCtx::default()).is_ok(), unsigned: false, uninterpreted: false },
+            Pos { name: "claim-key-before-wrong-kind-iss", build: |n, _m| Item::Map(vec![(n, Item::Int(0)), (Item::Int(1), Item::Int(5))]), recode: recode!(ClaimsSet), accepts: |i| m_claims(i).is_ok(), unsigned: false, uninterpreted: false },
+            Pos { name: "claim-exp-before-unregistered-key", build: |n, _m| Item::Map(vec![(Item::Int(4), n), (Item::Int(-5), Item::Int(5))]), recode: recode!(ClaimsSet), accepts: |i| m_claims(i).is_ok(), unsigned: false, uninterpreted: false },
+            Pos { name: "countersig-label-before-later-fault", build: |n, _m| map1(Item::Int(7), Item::Array(vec![Item::Bytes(vec![]), Item::Map(vec![(n, Item::Null), (Item::Int(3), Item::Text("nonsense".into()))]), Item::Bytes(vec![1])])), recode: recode!(Header), accepts: |i| m_header(i, &mut MCtx::default()).is_ok(), unsigned: false, uninterpreted: false },
             Pos { name: "header-extra-value", build: |n, _m| map1(Item::Int(100), n), recode: recode!(Header), accepts: |_| true, unsigned: false, uninterpreted: true },
             Pos { name: "key-extra-value", build: |n, _m| Item::Map(vec![(Item::Int(1), Item::Int(1)), (Item::Int(-1), n)]), recode: recode!(CoseKey), accepts: |_| true, unsigned: false, uninterpreted: true },
             // ... also as the *key* of a map nested inside an extra value (and deeper: in an array, under a tag)
@@ -383,7 +399,7 @@ pub fn property() -> Property {
     Property {
         id: "C15",
         title: "Integers are decoded exactly or rejected as out of range, never wrapped",
-        rule: "integer n x interpreting position (48 positions (incl. labels beside populated typed fields, map keys nested inside extra values, the same integer twice as labels of one map, positions inside counter-signature arrays, nested recipients, key sets, and pairs of adjacent integers in one map): labels, alg, kty, content type, crit / key_ops entries, claim keys, nonces, timestamps, key data length, registry labels, and uninterpreted extra values) \
+        rule: "integer n x interpreting position (61 positions (incl. an out-of-range integer that is the first of several faults of its map (no kty, a later ill-formed entry), labels beside populated typed fields, map keys nested inside extra values, the same integer twice as labels of one map, positions inside counter-signature arrays, nested recipients, key sets, and pairs of adjacent integers in one map): labels, alg, kty, content type, crit / key_ops entries, claim keys, nonces, timestamps, key data length, registry labels, and uninterpreted extra values) \
                x head width (every legal width and the bignum form); exhaustive over the boundary lattice (c-3..c+3 around 0, 23/24, 2^8, 2^16, 2^31, 2^32, 2^63, 2^64 of both signs), random elsewhere in [-2^64, 2^64-1]; \
                non-trivial = |n| >= 2^31 or n on the lattice; distinct by (position, n, width)",
         assumptions: &["oracle: out-of-range => the out-of-range error; in range => accepted iff the reference model accepts, and the re-encoding read by the strict reader holds exactly n"],
